@@ -152,6 +152,8 @@ class Kind:
         return False
     def probe(self, H):               # look at the implementation once before generating (model variant selection)
         pass
+    def where(self, x):               # text appended to a round-trip violation (e.g. the address of the structure)
+        return ""
     def rt_ok(self, x, got):          # round-trip oracle on Go's decoded value
         return got == [0, self.proj(x)]
     n_quick = None                    # number of generated values in the quick tier (default: run()'s n_values)
@@ -554,6 +556,8 @@ class OhdrV2(Kind):
         return "oval val_ohdr' (dec_ohdr %s %s %d)" % (csbe(sb), cbytes(hexs), sb["addr"])
     def focus(self, x):
         return x["_sb"]["addr"]
+    def where(self, x):
+        return " - e.g. %d messages written at address %d (= %d mod 8)" % (len(x["msgs"]), x["_sb"]["addr"], x["_sb"]["addr"] % 8)
     def proj(self, x):
         cur = x["_sb"]["addr"] + 7
         ms, name, ref = [], "", None
@@ -621,6 +625,64 @@ class OhdrV1(OhdrV2):
                 name = d.split(b"\0")[0].hex()
         return [1, 0, x["refcount"], name, ms]
 
+
+
+class OhdrV1ContK(OhdrV2):
+    """Version 1 object header continued in one continuation block; header and block at arbitrary addresses
+    (all residues modulo 8 for both).  The image is assembled by the harness with the library's own version 1
+    writer (a continuation block is the message part of a version 1 header); core.ReadObjectHeader must return
+    the header block's messages (the continuation message among them) followed by the block's messages.
+    Gate: the Python projection of what was encoded (no Coq model of the version 1 continuation queue:
+    Model/CodecOhdr.v parse_v1 covers the first block only)."""
+    name = "ohdrv1cont"
+    label = "ohdr_v1_cont"
+    no_model = True
+    n_quick = 96
+    CT = [1, 3, 8, 5, 17, 2, 10, 11, 255]
+
+    def msgs(self, rng, nmin, nmax):
+        out = []
+        for _ in range(rng.randint(nmin, nmax)):
+            out.append(dict(type=rng.choice(self.CT), data=rbytes(rng, rng.choice([1, 2, 3, 4, 7, 8, 9, 12, 16, 18, 24, 33, 100])).hex()))
+        return out
+
+    @staticmethod
+    def span(ms):
+        return sum((8 + len(m["data"]) // 2 + 7) // 8 * 8 for m in ms)
+
+    def gen(self, rng, i):
+        addr = pick_ohdr_addr(rng, i)
+        if addr > 5000:
+            addr = addr % 5000
+        a0, b0 = self.msgs(rng, 0, 3), self.msgs(rng, 0, 2)
+        blk = self.msgs(rng, 2, 5)
+        # the block address takes every residue modulo 8, whatever the header's address is
+        blk_addr0 = addr + 16 + self.span(a0) + 24 + self.span(b0)
+        gap = (i // 2 - blk_addr0) % 8 + 8 * rng.choice([0, 0, 1, 5])
+        between = rbytes(rng, gap)
+        blk_addr, blk_size = blk_addr0 + gap, self.span(blk)
+        cont = dict(type=16, data=(blk_addr.to_bytes(8, "little") + blk_size.to_bytes(8, "little")).hex())
+        return dict(_sb=dict(v=0, o=8, l=8, be=False, addr=addr), refcount=rng.choice([0, 1, 7]), pre=ohdr_pre(rng, addr).hex(),
+                    msgs=a0 + [cont] + b0, between=between.hex(), blk=blk, suf=rbytes(rng, rng.choice([0, 1, 8, 40])).hex(),
+                    _blk_addr=blk_addr)
+
+    def invalid(self, rng):
+        return []
+    def wf_expr(self, x):
+        return None
+    def proj(self, x):
+        out = []
+        for start, ms in ((x["_sb"]["addr"] + 16, x["msgs"]), (x["_blk_addr"], x["blk"])):
+            cur = start
+            for m in ms:
+                out.append([m["type"], cur, m["data"]])
+                cur += (8 + len(m["data"]) // 2 + 7) // 8 * 8
+        return [1, 0, x["refcount"], "", out]
+    def where(self, x):
+        return " - e.g. header at address %d (= %d mod 8), continuation block at %d (= %d mod 8)" % (
+            x["_sb"]["addr"], x["_sb"]["addr"] % 8, x["_blk_addr"], x["_blk_addr"] % 8)
+    def shape(self, x):
+        return "hdr%%8=%d,blk%%8=%d" % (x["_sb"]["addr"] % 8, x["_blk_addr"] % 8)
 
 
 class OhdrContK(OhdrV2):
@@ -760,6 +822,8 @@ class OhdrContK(OhdrV2):
         return [2, x["flags"], 1 if ref is None else ref, name, ms]
     def shape(self, x):
         return "chunks=%d,os=%d,ls=%d,be=%d" % (len(x["ks"]), x["_sb"]["o"], x["_sb"]["l"], x["_sb"]["be"])
+    def where(self, x):
+        return " - e.g. first chunk at address %d" % x["_sb"]["addr"]
 
     def extra_malformed(self, rng, x, r):
         """the reader's refusals and the shapes outside the chain grammar: links back to a visited chunk or to
@@ -1215,7 +1279,7 @@ class FilterPipeK(Kind):
         return "n=%d" % len(x["filters"])
 
 
-KINDS = [Dataspace(), Layout(), DatatypeK(), DatatypeVlen(), AttributeK(), SuperblockK(), OhdrV2(), OhdrV1(), OhdrContK(),
+KINDS = [Dataspace(), Layout(), DatatypeK(), DatatypeVlen(), AttributeK(), SuperblockK(), OhdrV2(), OhdrV1(), OhdrV1ContK(), OhdrContK(),
          LinkK(), Link2K(), LinkInfoK(), AttrInfoK(), SymtabK(), CompoundK(), CompoundTreeK(), CompoundGreedy(), ArrayK(), EnumK(), FilterPipeK()]
 
 # kinds whose encoder/decoder pair is known not to round-trip: id of the KNOWN_FINDINGS entry
@@ -1326,8 +1390,8 @@ def run(ctx):
                 known.append("%s: Parse(Encode(x)) != x for %d/%d values, e.g. %s (%s)" % (
                     K.label, len(rt_bad), len(vals), json.dumps(K.go(x))[:120], kid))
             else:
-                viol.append(dict(what="%s: decoding the encoded bytes does not give the value back (%d of %d values)" % (
-                    K.label, len(rt_bad), len(vals)),
+                viol.append(dict(what="%s: decoding the encoded bytes does not give the value back (%d of %d values)%s" % (
+                    K.label, len(rt_bad), len(vals), K.where(x)),
                     failing_input=dict(kind=K.name, value=K.go(x), sb=x.get("_sb")),
                     encoded=r.get("enc"), decoded=got, expected=want))
         # malformed stream
